@@ -8,6 +8,7 @@
  *   col  <mode> <verify> <file> <rg> <col> <ops>        column-reader history
  *   bat  <mode> <verify> <file> <batch_size> <proj>     batch reader, all batches
  *   meta <mode> <verify> <file>                         metadata dump
+ *   foot <mode> <hex>                                   can these bytes be opened at all (footer location logic): OK | ERR
  *
  *   mode   f = carquet_reader_open (stdio)   m = carquet_reader_open with use_mmap   b = carquet_reader_open_buffer
  *   file   w:<codec>:<coldefs>:<rowgroups>   written with carquet_writer (page_size = 1: every write_batch = one page)
@@ -556,6 +557,17 @@ int main(void) {
         } else if (!strcmp(h_tok[0], "meta") && h_ntok == 4) {
             if (ensure_file(h_tok[3], why, sizeof why) != 0) printf("ERR file %s\n", why);
             else run_meta(h_tok[1][0], atoi(h_tok[2]));
+        } else if (!strcmp(h_tok[0], "foot") && h_ntok == 3) {
+            size_t L = strlen(h_tok[2]);
+            char* spec = malloc(L + 3);
+            spec[0] = 'x'; spec[1] = ':'; memcpy(spec + 2, h_tok[2], L + 1);
+            if (ensure_file(spec, why, sizeof why) != 0) printf("ERR file %s\n", why);
+            else {
+                carquet_error_t err = CARQUET_ERROR_INIT;
+                carquet_reader_t* rd = open_reader(h_tok[1][0], 1, &err);
+                if (rd) { puts("OK"); carquet_reader_close(rd); } else puts("ERR");
+            }
+            free(spec);
         } else {
             puts("ERR unknown-op");
         }
